@@ -47,7 +47,7 @@ package acpi
 //@ func (drv *acpiDriver) enumerateTables(w io.Writer) (err *kernel.Error)
 //@   property C14
 //@   requires drv != nil && foreignErrs() && vmm.mapCalls < 0x10000000000 && wfRoot(drv.rsdtAddr, drv.useXSDT)
-//@   modifies drv.tableMap, vmm.mapCalls, vmm.mapLogPage, vmm.mapLogFrame, vmm.mapLogFlags, vmm.pageTables
+//@   modifies drv.tableMap, vmm.mapCalls, vmm.mapLogPage, vmm.mapLogFrame, vmm.mapLogFlags, vmm.pageTables, kfmt.outLen, kfmt.out, elems(uint8)
 //@   at mapupdate 1: assert registered: okTable(mem, addrof(value), value.Length) && dataptr(key) == addrof(value) && len(key) == 4
 //@   at call mapACPITable 3: assert dsdt: dsdtAddr == ite(acpiRev >= 2, uintptr(mem64(addrof(header)+140)), uintptr(mem32(addrof(header)+40)))
 //@   at mapupdate 2: assert registeredDsdt: okTable(mem, addrof(value), value.Length) && dataptr(key) == addrof(value) && len(key) == 4
